@@ -606,6 +606,45 @@ func c03(r *core.Run) {
 				}
 			}
 		}
+		// the two closes belong to every run's shutdown: wrapped in a sync.Once of the Service they
+		// happen for the first run only - a restarted service's Shutdown leaves its connection open
+		// and its listener (and Serve) blocked for ever
+		for _, f2 := range scope {
+			for _, cl := range withAnon(f2) {
+				if cl.Parent() == nil {
+					continue
+				}
+				for _, c := range core.Calls(cl) {
+					cc := c.Common()
+					isConnClose := false
+					if cc.IsInvoke() && cc.Method.Name() == "Close" {
+						if f, ok := core.LoadedField(cc.Value); ok && f == a.NC {
+							isConnClose = true
+						}
+					}
+					isChClose := false
+					if core.CalleeName(c) == "builtin:close" {
+						if f, ok := core.LoadedField(cc.Args[0]); ok && f == a.InCh {
+							isChClose = true
+						}
+					}
+					if !isConnClose && !isChClose {
+						continue
+					}
+					once := false
+					for _, oc := range core.Calls(cl.Parent()) {
+						if cal := oc.Common().StaticCallee(); cal != nil && cal.String() == "(*sync.Once).Do" {
+							for _, av := range oc.Common().Args {
+								if mc, ok := av.(*ssa.MakeClosure); ok && mc.Fn == ssa.Value(cl) {
+									once = true
+								}
+							}
+						}
+					}
+					r.Check(!once, "S3", fname, "close-steps-run-on-every-shutdown", p.InstrPos(c), "the closing steps are not behind a once-guard", "the connection / in-channel is closed inside a sync.Once of the service: only the first run's shutdown closes them - after a restart Shutdown returns with the connection still open and the listener loop (and the blocked Serve call) never ends")
+				}
+			}
+		}
 		r.Check(nilStore != nil && e.stateAt(nilStore).Only(lkHeld), "S3", fname, "workqueue=nil-under-lock", posOf(p, nilStore), "closing flag set with the queue lock Held", "closing flag (nil work queue) not set, or set without the lock")
 		r.Check(bcast != nil && nilStore != nil && p.DominatesIn(fn, nilStore, bcast), "S3", fname, "Broadcast-after-nil", posOf(p, bcast), "all workers are woken after the closing flag is set", fmt.Sprintf("no Broadcast after setting the closing flag (signal-only=%v): waiting workers never observe the close", signalOnly))
 		r.Check(connClose != nil && bcast != nil && p.DominatesIn(fn, bcast, connClose), "S3", fname, "Conn.Close-after-Broadcast", posOf(p, connClose), "connection closed after workers were told to stop", "connection not closed in closeFn after the broadcast")
